@@ -52,7 +52,7 @@ class Prop(BaseProp):
     def run_case(self, idx, rng):
         res = CaseResult()
         single = idx % 4 == 3
-        prefix = rng.choice([None, None, "Pfx"])
+        prefix = rng.choice([None, None, "Pfx", "Überblick ✓"])     # (the non-ASCII one is given through the settings file)
         recursive = rng.random() < 0.75
         topless = (not single) and rng.random() < 0.25     # the input directory itself holds no CMake file
         with runner.sandbox() as sb:
@@ -85,9 +85,12 @@ class Prop(BaseProp):
                 inset["function_parameter_name_strip_regex"] = rng.choice(["^_", "_in$", "^p"])
                 inset["macro_parameter_name_strip_regex"] = rng.choice(["^_", "_in$", "^p"])
                 res.count("runs_with_strip_patterns")
-            fsrun.write_yaml(cfg, {"input": inset,
-                                   "rst": {"file_extensions_in_titles": rng.random() < 0.3}})
-            common = ["-s", cfg] + (["-p", prefix] if prefix else [])
+            rstset = {"file_extensions_in_titles": rng.random() < 0.3}
+            prefix_in_file = bool(prefix) and not prefix.isascii()
+            if prefix_in_file:
+                rstset["prefix"] = prefix
+            fsrun.write_yaml(cfg, {"input": inset, "rst": rstset})
+            common = ["-s", cfg] + (["-p", prefix] if prefix and not prefix_in_file else [])
             # exclude patterns (same in every variant): a glob matching several siblings, a bare name, and filters with an
             # inner slash that are anchored and therefore never match an absolute path, whatever the working directory is
             if rng.random() < 0.6:
@@ -96,6 +99,15 @@ class Prop(BaseProp):
                 for pat in rng.sample(pool, rng.randint(1, 3)):
                     common += ["-e", pat]
                 res.count("runs_with_exclude_patterns")
+            if not single and not topless and rng.random() < 0.2:
+                if rng.random() < 0.6:
+                    recursive = False
+                # every CMake file of the input directory itself is excluded by a pattern (absolute paths: files of the same
+                # name further down stay in)
+                for f_ in tree.files_of(""):
+                    if f_.lower().endswith(".cmake"):
+                        common += ["-e", "**/proj/" + f_]
+                res.count("runs_whose_top_level_files_are_all_excluded")
             if single:
                 if rng.random() < 0.3:
                     tree.files[".cmake"] = self.contents(rng, ".cmake")        # empty stem
